@@ -359,6 +359,50 @@ def _units(p):
 BYTE_TYPES = ("u8", "core::mem::MaybeUninit<u8>", "i8")
 
 
+def _counter_unit(I, term):
+    """term is a bare loop counter (a phi, possibly +/- a constant): -> 1 (bytes) / 0 (elements) from the bound it is compared with in a loop test,
+    "unknown" if that bound is a bare parameter, None if term is not a bare counter or no comparison is found"""
+    p = as_poly(term)
+    phis = [a for a in p.atoms() if isinstance(a, tuple) and a and a[0] == "phi"]
+    if len(phis) != 1 or any(len(k) > 1 or (len(k) == 1 and k[0] != phis[0]) for k in p.m) or p.m.get((phis[0],)) != 1:
+        return None
+    phi = phis[0]
+    verdict = None
+    for sw in I.all_effects(("SWITCH",)):
+        d = sw["discr"]
+        dd = d[1] if isinstance(d, tuple) and d and d[0] == "not" else d
+        if not (isinstance(dd, tuple) and dd and dd[0] == "cmp"):
+            continue
+        a, b = as_poly(dd[2]), as_poly(dd[3])
+        for x, y in ((a, b), (b, a)):
+            if phi in set(x.atoms()) and phi not in set(y.atoms()):
+                if y.is_const():
+                    continue      # `i > 0`: says nothing about the unit
+                if any(isinstance(t, tuple) and t and t[0] == "param" for t in y.atoms()) and _units(y) == {0}:
+                    verdict = verdict or "unknown"
+                    continue
+                u = _units(y)
+                if u == {1}:
+                    return 1
+                if u == {0}:
+                    return 0
+    if verdict is None:
+        # a count-down counter (`while i > 0 { i -= 1; .. }`): the unit of its initial value
+        for (pg, kind) in I.g.nodes[phi[1]].preds:
+            v0 = I.out_value(pg, phi[2], phi[1])
+            if v0 is not None and phi not in set(as_poly(v0).atoms()):
+                y = as_poly(v0)
+                if y.is_const():
+                    continue
+                if any(isinstance(t, tuple) and t and t[0] == "param" for t in y.atoms()) and _units(y) == {0}:
+                    verdict = "unknown"
+                elif _units(y) == {1}:
+                    return 1
+                elif _units(y) == {0}:
+                    return 0
+    return verdict
+
+
 def r_units(ctx):
     res = RuleResult("R-UNITS")
     seen = set()
@@ -399,6 +443,19 @@ def r_units(ctx):
                     pp = ptr_parts(e["base"])
                     into_storage = pp is not None and base_mem(pp[0]) is not None
                     if not into_storage:
+                        continue
+                    cu = _counter_unit(I, e["n"])
+                    if cu == "unknown":
+                        continue     # a loop counter bounded by a bare parameter (a helper analysed on its own): its unit is its callers' business
+                    if cu is not None:
+                        # a loop counter has the unit of the bound it is compared with
+                        want = 1 if e["ety"] in BYTE_TYPES else 0
+                        res.inst(sample={"site": e.where(), "sink": "pointer-offset", "term": str(e["n"]), "counter_unit": "BYTES" if cu == 1 else "ELEMS"}, func=fn)
+                        if cu == want:
+                            res.ok()
+                        else:
+                            res.fail(fn, "pointer-offset", "pointer-offset is the loop counter %s, which counts %s, but the sink requires %s" % (
+                                e["n"], "BYTES" if cu == 1 else "ELEMENTS", "BYTES (element count x stride)" if want == 1 else "ELEMENTS"), span=span_of_effect(e))
                         continue
                     judge(e, "pointer-offset", e["n"], 1 if e["ety"] in BYTE_TYPES else 0, fn, an)
                 elif e.kind == "COPY":
